@@ -35,6 +35,7 @@ const (
 	vFlowCode   = uint32(ErrCodeFlowControl)
 
 	sigResidue = "batching-residue"
+	sigPreAck  = "pre-ack-small-stream-window"
 )
 
 func TestVerifC10(t *testing.T) { verifFlowRun(t, "c10") }
@@ -94,6 +95,7 @@ type vfStream struct {
 	bodyBytes  int64
 	delivered  int64
 	bodyClosed bool
+	short      int64 // enforced window = win - short (stream opened before the SETTINGS ACK, configured window < 65535)
 }
 
 type vfConn struct {
@@ -113,6 +115,17 @@ type vfConn struct {
 	goneAway   bool   // graceful GOAWAY sent: later streams are ignored, their DATA discarded
 	keepAlive  uint32 // the body-less request left in flight across the shutdown
 	blocked    bool   // the peer is not reading: the server's writer is blocked, its frames queue up
+	acked      bool   // the client has acknowledged the server's SETTINGS
+	preAck     bool   // this step's DATA is in the pre-ACK region
+}
+
+// advWin is the stream window advertised to the client for a new stream: the protocol default
+// 65535 until the client has acknowledged a smaller SETTINGS_INITIAL_WINDOW_SIZE.
+func (c *vfConn) advWin() int64 {
+	if !c.acked && c.streamInit < InitialWindowSize {
+		return InitialWindowSize
+	}
+	return c.streamInit
 }
 
 // block: the client stops reading and sends a PING, whose acknowledgement occupies the server's
@@ -260,7 +273,7 @@ func (c *vfConn) drain() {
 	}
 }
 
-func vfNewConn(t *testing.T, o *vu.Out, mode string, connWin, streamWin int64) *vfConn {
+func vfNewConn(t *testing.T, o *vu.Out, mode string, connWin, streamWin int64, early bool) *vfConn {
 	c := &vfConn{t: t, o: o, mode: mode, streams: map[uint32]*vfStream{}, fcSeen: map[uint32]bool{}}
 	c.st = newServerTester(t, nil, func(s *Server) {
 		s.MaxUploadBufferPerConnection = int32(connWin)
@@ -272,6 +285,10 @@ func vfNewConn(t *testing.T, o *vu.Out, mode string, connWin, streamWin int64) *
 	c.st.writePreface()
 	c.st.writeSettings()
 	c.settle()
+	if early {
+		return c // the client goes on without acknowledging (or waiting for) the server's SETTINGS
+	}
+	c.acked = true
 	c.st.writeSettingsAck()
 	c.settle()
 	return c
@@ -352,7 +369,12 @@ func (c *vfConn) classifyData(sid uint32, ln, pad int64, es bool) uint32 {
 			s.status = vsHalfRemote
 		}
 		return 0
-	case L > c.conn || L > s.win:
+	case L > c.conn || L > s.win-s.short:
+		if L <= c.conn && L <= s.win {
+			// within the window advertised to the client, beyond the one the server enforces
+			c.o.Stat("branch:pre-ack-refused-within-advertised")
+			c.preAck = true
+		}
 		if L > s.win {
 			c.o.Stat("branch:excess-stream")
 		} else {
@@ -408,8 +430,9 @@ func vfExec(t *testing.T, mode string, ops []string, o *vu.Out) {
 			c.obs = nil
 			c.fcSeen = map[uint32]bool{}
 			c.goawayFC = false
+			c.preAck = false
 		}
-		if f[0] == "reset" {
+		if f[0] == "reset" || f[0] == "ereset" {
 			if len(f) != 3 {
 				o.Op(op, "bad-op")
 				continue
@@ -419,8 +442,8 @@ func vfExec(t *testing.T, mode string, ops []string, o *vu.Out) {
 				o.Op(base, "ok")
 				continue
 			}
-			c = vfNewConn(t, o, mode, vfAtoi(f[1]), vfAtoi(f[2]))
-			o.Stat("op:reset")
+			c = vfNewConn(t, o, mode, vfAtoi(f[1]), vfAtoi(f[2]), f[0] == "ereset")
+			o.Stat("op:" + f[0])
 			c.residueCheck("after the initial WINDOW_UPDATE")
 			emit()
 			continue
@@ -457,6 +480,19 @@ func vfExec(t *testing.T, mode string, ops []string, o *vu.Out) {
 			}
 		}
 		switch f[0] {
+		case "ack":
+			if len(f) != 1 {
+				valid = false
+				break
+			}
+			if !c.acked {
+				c.acked = true
+				c.st.writeSettingsAck()
+				for _, s := range c.streams {
+					s.win -= s.short
+					s.short = 0
+				}
+			}
 		case "block":
 			if len(f) != 1 {
 				valid = false
@@ -485,7 +521,8 @@ func vfExec(t *testing.T, mode string, ops []string, o *vu.Out) {
 			c.st.writeHeaders(HeadersFrameParam{StreamID: sid, BlockFragment: c.st.encodeHeader(hdrs...), EndStream: es, EndHeaders: true})
 			if !c.dead {
 				c.maxSid = sid
-				s := &vfStream{id: sid, win: c.streamInit, declCL: cl, status: vsOpen}
+				s := &vfStream{id: sid, win: c.advWin(), declCL: cl, status: vsOpen}
+				s.short = s.win - c.streamInit
 				if es {
 					s.status = vsHalfRemote
 				}
@@ -519,7 +556,8 @@ func vfExec(t *testing.T, mode string, ops []string, o *vu.Out) {
 			}
 			c.st.writeHeaders(HeadersFrameParam{StreamID: sid, BlockFragment: c.st.encodeHeader(":method", "GET"), EndStream: true, EndHeaders: true})
 			c.maxSid = sid
-			ks := &vfStream{id: sid, win: c.streamInit, declCL: -1, status: vsHalfRemote}
+			ks := &vfStream{id: sid, win: c.advWin(), declCL: -1, status: vsHalfRemote}
+			ks.short = ks.win - c.streamInit
 			c.streams[sid] = ks
 			synctest.Wait()
 			c.st.callsMu.Lock()
@@ -549,7 +587,7 @@ func vfExec(t *testing.T, mode string, ops []string, o *vu.Out) {
 				if pad >= 0 {
 					L += pad + 1
 				}
-				if s := c.streams[sid]; s == nil || L > c.conn || L > s.win {
+				if s := c.streams[sid]; s == nil || L > c.conn || L > s.win-s.short {
 					// the refusal has to be observable on this line, and the frames queued so far
 					// precede the DATA frame: they get a line of their own
 					c.unblock()
@@ -726,6 +764,9 @@ func vfExec(t *testing.T, mode string, ops []string, o *vu.Out) {
 		}
 		c.settle()
 		// C11 on the implementation
+		if c.preAck && c.fcSeen[expectFC] && mode == "c11" {
+			o.Fail(sigPreAck, fmt.Sprintf("%q: DATA within the 65535-byte stream window the client is entitled to before it has acknowledged SETTINGS_INITIAL_WINDOW_SIZE=%d was refused with FLOW_CONTROL_ERROR", base, c.streamInit))
+		}
 		if expectFC != 0 && !c.fcSeen[expectFC] && !c.goawayFC {
 			o.Fail("", fmt.Sprintf("%q: DATA beyond the advertised window was not refused with FLOW_CONTROL_ERROR", base))
 		}
@@ -796,12 +837,23 @@ func vfGen(r *vu.Rng, i int, mode string) []string {
 		connWin = InitialWindowSize + int64(r.Intn(40000))
 		streamWin = int64(r.Range(1, 90000))
 	}
-	ops = append(ops, fmt.Sprintf("reset %d %d", connWin, streamWin))
+	early := r.Chance(1, 8)
+	if early {
+		// the client does not wait for (or acknowledge) the server's SETTINGS; mostly a configured
+		// stream window below the protocol default
+		if r.Chance(3, 4) {
+			streamWin = int64(r.Range(1, InitialWindowSize-1))
+		}
+		ops = append(ops, fmt.Sprintf("ereset %d %d", connWin, streamWin))
+	} else {
+		ops = append(ops, fmt.Sprintf("reset %d %d", connWin, streamWin))
+	}
 	conn := gflow{avail: InitialWindowSize}
 	conn.add(connWin - InitialWindowSize)
 	var streams []*gstream
 	nextID := 1
 	afterGoAway := false
+	ackSent := false
 	openStream := func() *gstream {
 		s := &gstream{id: nextID, fl: gflow{avail: streamWin}, open: true, handler: true, cl: -1}
 		if afterGoAway {
@@ -861,6 +913,10 @@ func vfGen(r *vu.Rng, i int, mode string) []string {
 		}
 		if mode == "c11" && r.Chance(1, 3) {
 			L = w + int64(r.Range(-1, 1))
+		}
+		if early && !ackSent && streamWin < InitialWindowSize && r.Chance(1, 2) {
+			// between the configured window and the 65535 the client may still use
+			L = streamWin + int64(r.Intn(int(InitialWindowSize-streamWin)+2))
 		}
 		if L < 0 {
 			L = 0
@@ -1029,7 +1085,15 @@ func vfGen(r *vu.Rng, i int, mode string) []string {
 	if r.Chance(1, 4) {
 		shutdownAt = r.Intn(steps)
 	}
+	ackAt := -1
+	if early && r.Chance(2, 3) {
+		ackAt = r.Intn(steps)
+	}
 	for j := 0; j < steps; j++ {
+		if j == ackAt {
+			ops = append(ops, "ack")
+			ackSent = true
+		}
 		if j == shutdownAt {
 			// graceful shutdown with a request in flight; streams opened from here on are ignored
 			// by the server and their DATA (mostly padded below) is discarded
